@@ -51,6 +51,19 @@ func c12AttackGens() []OpGen {
 			}
 			v := vs[r.Intn(len(vs))]
 			a := w.nonOwner(r, v.Owner)
+			// half of the time the attacker is someone who owns a vault of its own in the same product (an ownership test that
+			// only asks "does the signer have a vault here" would let it through)
+			if r.Bool() {
+				for _, o := range vs {
+					if o.Id != v.Id && o.AppId == v.AppId && o.ExtendedPairVaultID == v.ExtendedPairVaultID && o.Owner != v.Owner {
+						if i := w.actorIdx(o.Owner); i >= 0 {
+							a = w.Actors[i]
+							w.Stats.Probe("c12.attacker_owns_a_vault_in_the_same_product")
+							break
+						}
+					}
+				}
+			}
 			if a == nil {
 				return nil
 			}
@@ -263,6 +276,14 @@ func wasmVariants(w *World, r *Rng) []wasmVariant {
 	one := sdk.NewInt(1000)
 	d := decStr("0.01")
 	addr := w.Actors[0].Addr
+	// address fields inside a payload: usually some account, sometimes the designated contract itself (a guard that looks at
+	// the payload instead of the sender would be satisfied by it)
+	payloadAddr := addr
+	if des, ok := designatedContracts[w.Cfg.ChainID]; ok && r.Bool() {
+		if a, err := sdk.AccAddressFromBech32(des[[]int{0, 1, 1, 1}[r.Intn(4)]]); err == nil {
+			payloadAddr = a
+		}
+	}
 	ms := []struct {
 		n string
 		m bindings.ComdexMessages
@@ -284,8 +305,8 @@ func wasmVariants(w *World, r *Rng) []wasmVariant {
 		{"add_esm_trigger_params", bindings.ComdexMessages{MsgAddESMTriggerParams: &bindings.MsgAddESMTriggerParams{AppID: app, TargetValue: sdk.NewCoin("uharbor", one), CoolOffPeriod: 100, AssetID: []uint64{asset()}, Rates: []uint64{1000000}}}},
 		{"emission_rewards", bindings.ComdexMessages{MsgEmissionRewards: &bindings.MsgEmissionRewards{AppID: gov, Amount: one, EmissionAmount: 1, ExtendedPair: []uint64{ext}, VotingRatio: []sdk.Int{one}}}},
 		{"foundation_emission", bindings.ComdexMessages{MsgFoundationEmission: &bindings.MsgFoundationEmission{AppID: gov, Amount: one, FoundationAddress: []string{addr.String()}}}},
-		{"rebase_mint", bindings.ComdexMessages{MsgRebaseMint: &bindings.MsgRebaseMint{AppID: gov, Amount: one, ContractAddr: addr}}},
-		{"get_surplus_fund", bindings.ComdexMessages{MsgGetSurplusFund: &bindings.MsgGetSurplusFund{AppID: app, AssetID: asset(), ContractAddr: addr, Amount: sdk.NewCoin("ucmst", one)}}},
+		{"rebase_mint", bindings.ComdexMessages{MsgRebaseMint: &bindings.MsgRebaseMint{AppID: gov, Amount: one, ContractAddr: payloadAddr}}},
+		{"get_surplus_fund", bindings.ComdexMessages{MsgGetSurplusFund: &bindings.MsgGetSurplusFund{AppID: app, AssetID: asset(), ContractAddr: payloadAddr, Amount: sdk.NewCoin("ucmst", one)}}},
 		{"emission_pool_rewards", bindings.ComdexMessages{MsgEmissionPoolRewards: &bindings.MsgEmissionPoolRewards{AppID: gov, CswapAppID: cswap, Amount: one, Pools: []uint64{pool}, VotingRatio: []sdk.Int{one}}}},
 	}
 	out := make([]wasmVariant, 0, len(ms))
